@@ -23,7 +23,8 @@ Inductive obs :=
 | OErr (e : err)                               (* an error escaped the processing of one event *)
 | OCan (b : bool)
 | OEnter (s : nat)                             (* state added to the active configuration *)
-| OLeave (s : nat).                            (* state removed from the active configuration *)                             (* answer of can(event), probed by the harness before a send *)
+| OLeave (s : nat)                             (* state removed from the active configuration *)
+| OEmit (k : nat) (which : nat).               (* an emit listener was called: 0 typed, 1 wildcard *)                             (* answer of can(event), probed by the harness before a send *)
 
 Record st := {
   s_cfg : config;
@@ -96,6 +97,7 @@ Fixpoint exec_actions (eng : engine) (processing : bool) (acts : list act) (ev :
                   | Sync => s end in
         exec_actions eng processing r ev (send_self eng {| e_type := ty; e_kind := EPlain; e_tag := tag |} s1)
     | ABadBuiltin k => (logo (OActErr k) s, None)
+    | AEmit k => exec_actions eng processing r ev (logo (OEmit k 1) (logo (OEmit k 0) s))
     end
   end.
 
